@@ -254,6 +254,33 @@ def run(res, tier):
     res.ob('LINKS', f.where(heads[0]), 'RemovePulseChild tests `child == _firstChild[SCHEDULED]` before unlinking the child', not bad, function=f.q, key='LINKS|%s|head-test-first' % f.q,
            message='RemovePulseChild evaluates "was the child the head of the schedule?" after ReschedulePulseChild(child, -1) has unlinked it, so the answer is always no: the node never asks its own parent '
                    'to recalculate it and keeps advertising the removed child\'s (too early) time')
+    # ---- round-2 additions
+    f = fx.fn1(PN + '::ClearPulseChildren')
+    nlists = fx.enum_const('NUM_LINKED_LISTS')
+    idx = set()
+    loops_all = False
+    for n in f.walk():
+        if n['k'] == 'ArraySubscriptExpr' and A.strip_casts(n['ch'][0]).get('n') in ('_firstChild', '_lastChild'):
+            i_ = A.strip_casts(n['ch'][1])
+            if 'v' in i_:
+                idx.add(i_['v'])
+            elif i_['k'] == 'DeclRefExpr':
+                for l_ in f.walk():
+                    if l_['k'] == 'ForStmt' and l_.role('cond') is not None and any(x.get('v') == nlists and x.get('n') == 'NUM_LINKED_LISTS' or x.get('v') == nlists for x in l_.role('cond').walk()):
+                        loops_all = True
+    okc = loops_all or (nlists is not None and idx >= set(range(nlists)))
+    res.ob('LINKS', f.where(), 'ClearPulseChildren empties all %s child lists' % nlists, okc, how='loop over all lists' if loops_all else 'indices %s' % sorted(idx), function=f.q, key='LINKS|%s|all-lists' % f.q,
+           message='ClearPulseChildren empties only the lists %s of %s: children awaiting recalculation (just attached, invalidated or pulsed) stay attached, keep driving the wake-up time and, after the parent '
+                   'is destroyed, hold a dangling _parent' % (sorted(idx), nlists))
+    f = fx.fn1(PN + '::GetPulseTimeAux')
+    own = [c for c in f.walk() if c.is_call() and (c.get('q') or '') == PN + '::GetPulseTime']
+    kids = [c for c in f.walk() if c.is_call() and (c.get('q') or '') == PN + '::GetPulseTimeAux']
+    if not own or not kids:
+        raise AnalysisBroken('RE-ASK: GetPulseTimeAux: own GetPulseTime() / recursive calls not found')
+    bad = any(P.pos_of(f, k_) and P.pos_of(f, o_) and ((P.pos_of(f, k_)[0] == P.pos_of(f, o_)[0] and P.pos_of(f, k_)[1] < P.pos_of(f, o_)[1]) or C.can_reach(f, P.pos_of(f, k_), set([P.pos_of(f, o_)]))) for k_ in kids for o_ in own)
+    res.ob('RE-ASK', f.where(own[0]), 'GetPulseTimeAux asks the node itself before it drains the children awaiting recalculation', not bad, function=f.q, key='RE-ASK|%s|self-before-children' % f.q,
+           message='GetPulseTimeAux drains the pending children before calling the node\'s own GetPulseTime(): a child that the callback invalidates or attaches becomes pending after the list was emptied, '
+                   'its time never reaches the root and it is never pulsed')
     res.explanation = ('Static decision of the scheduler\'s structural invariants on util/PulseNode.cpp: the virtual Pulse() is dispatched only under (valid AND now >= scheduled time) with the scheduled time as '
                        'argument; children are descended only while due; a pulsed node is invalidated and every invalidation asks the parent for a recalculation; the aggregate time has one writer and is the '
                        'min of own and earliest child; the list links have one writer. The schedule over histories and re-entrancy from callbacks are not decided.')
